@@ -1,3 +1,4 @@
 """Import every sidecar module (registers contracts in pyvc.specs.REG)."""
 from . import core        # noqa: F401
 from . import environments  # noqa: F401
+from . import tags  # noqa: F401
